@@ -217,7 +217,14 @@ fn run_route(
 fn exec(desc: &Value, tr: &mut Tracer) -> anyhow::Result<()> {
     if desc.get("kind").and_then(|k| k.as_str()) == Some("shipped") {
         let res = avh::build::resources_dir();
-        let network = Network::from_file(res.join(gs(desc, "file")))?;
+        // a shipped file that does not load is C16's business: the case is skipped (counted, see `vacuity`)
+        let network = match Network::from_file(res.join(gs(desc, "file"))) {
+            Ok(n) => n,
+            Err(e) => {
+                tr.emit(json!({"ev":"NetRejected","msg":errtxt(&e)}));
+                return Ok(());
+            }
+        };
         let mut route: Vec<u32> = match desc.get("route_csv").and_then(|x| x.as_str()) {
             Some(f) => std::fs::read_to_string(res.join(f))?
                 .lines()
@@ -317,8 +324,8 @@ fn gen_link(r: &mut Rng, prev: usize, palt: usize) -> Value {
                 // keep clear of the exact knee 762 A = 25 R
                 let run = o - offs[i - 1];
                 let wrap = |x: i64| ((x + 180 * 8).rem_euclid(360 * 8) - 180 * 8).abs();
-                if 762 * wrap(nh_ - h) == 25 * run {
-                    nh_ = (nh_ + 1).rem_euclid(360 * 8);
+                if 762 * wrap(nh_ - h) == 25 * run && nh_ + 1 < 360 * 8 {
+                    nh_ += 1;
                 }
                 h = nh_;
             }
